@@ -34,6 +34,7 @@ type vcase struct {
 	OptPos   int   `json:"optpos"`
 	TC       bool  `json:"tc"`
 	Compress bool  `json:"compress"`
+	Q        int   `json:"q"` // question section: 0 one ordinary, 1 none, 2 two, 3 one long name
 	Sel      sel   `json:"sel"`
 }
 
@@ -101,12 +102,16 @@ func opt(kind int) *dns.OPT {
 	if kind == 2 {
 		o.Option = append(o.Option, &dns.EDNS0_NSID{Code: dns.EDNS0NSID, Nsid: "6e73696431"}, &dns.EDNS0_PADDING{Padding: make([]byte, 17)})
 	}
+	if kind == 3 { // large: with the long question, header + question + OPT come to 512 octets and more
+		o.Option = append(o.Option, &dns.EDNS0_PADDING{Padding: make([]byte, 300)})
+	}
 	return o
 }
 
 func build(c *vcase) *dns.Msg {
 	m := new(dns.Msg)
 	m.SetQuestion("www.example.org.", dns.TypeA)
+	setQuestions(m, c.Q)
 	m.Response = true
 	m.Truncated = c.TC
 	m.Compress = c.Compress
@@ -126,6 +131,20 @@ func build(c *vcase) *dns.Msg {
 		m.Extra = append(m.Extra, opt(c.Opt))
 	}
 	return m
+}
+
+// longQ: 3 x 55 octets + example.org. = a question name of 181 wire octets
+var longQ = strings.Repeat("q", 54) + "." + strings.Repeat("r", 54) + "." + strings.Repeat("s", 54) + ".example.org."
+
+func setQuestions(m *dns.Msg, q int) {
+	switch q {
+	case 1:
+		m.Question = nil
+	case 2:
+		m.Question = append(m.Question, dns.Question{Name: "second.example.org.", Qtype: dns.TypeAAAA, Qclass: dns.ClassINET})
+	case 3:
+		m.Question[0].Name = longQ
+	}
 }
 
 func packLen(m *dns.Msg, compress bool) int {
